@@ -11,12 +11,23 @@ import sys
 
 KNOWN = ["EXP_LOG", "LOG_WALSH", "MUL16", "MUL128", "SKEW"]
 
+# APIs through which the environment of the process could influence a result (threads and their number, environment
+# variables, clocks, files, sockets, child processes, random numbers, allocator statistics, panicking state)
+AMBIENT = [
+    r"\bstd\s*::\s*env\b", r"\benv\s*::\s*(?:var|vars|args)\b", r"\bavailable_parallelism\b",
+    r"\bthread\s*::\s*(?:spawn|scope|current|sleep|park|Builder|yield_now)\b", r"\bstd\s*::\s*thread\b",
+    r"\bstd\s*::\s*time\b", r"\b(?:Instant|SystemTime)\s*::", r"\bstd\s*::\s*fs\b", r"\bstd\s*::\s*net\b",
+    r"\bstd\s*::\s*process\b", r"\bstd\s*::\s*io\b", r"\brand(?:_chacha|_core)?\s*::", r"\bgetrandom\b",
+    r"\bRandomState\b", r"\bstd\s*::\s*panic\b", r"\bpanicking\s*\(",
+    r"\bas_ptr\s*\(\s*\)\s*as\s+usize\b", r"\bnum_cpus\b", r"\brayon\b",
+]
+
 
 def strip_tests(text):
     """remove `#[cfg(test)] mod x { … }` blocks (brace-matched) and `#[cfg(test)] mod x;` declarations"""
     out = []
     i = 0
-    pat = re.compile(r"#\[cfg\(test\)\]\s*(?:pub\s+)?mod\s+[A-Za-z_0-9]+\s*([;{])")
+    pat = re.compile(r"#\[cfg\(test\)\]\s*(?:#\[[^\]]*\]\s*)*(?:pub\s+)?mod\s+[A-Za-z_0-9]+\s*([;{])")
     while True:
         m = pat.search(text, i)
         if not m:
@@ -43,6 +54,16 @@ def main():
     items = []
     tls = uc = sm = 0
     notes = []
+    ambient = []
+    detect_outside = 0
+    # whole files that are test-only modules (`#[cfg(test)] mod x;`)
+    test_files = set()
+    for root, _, files in os.walk(os.path.join(repo, "src")):
+        for f in files:
+            if f.endswith(".rs"):
+                for m in re.finditer(r"#\[cfg\(test\)\]\s*(?:#\[[^\]]*\]\s*)*(?:pub(?:\([^)]*\))?\s+)?mod\s+([A-Za-z_0-9]+)\s*;", open(os.path.join(root, f)).read()):
+                    test_files.add(os.path.normpath(os.path.join(root, m.group(1) + ".rs")))
+                    test_files.add(os.path.normpath(os.path.join(root, m.group(1), "mod.rs")))
     for root, _, files in os.walk(os.path.join(repo, "src")):
         for f in sorted(files):
             if not f.endswith(".rs") or f == "verif_hooks.rs":
@@ -57,6 +78,17 @@ def main():
                 if mut:
                     sm += 1
                 items.append((rel, name, ty))
+            # AMBIENT INPUTS: anything the process environment could feed into a result.  The models treat every
+            # function of the crate as a function of its arguments, the object and (for DefaultEngine, in
+            # engine_default.rs only) the CPU features reported at run time.
+            if os.path.normpath(path) not in test_files:
+                for pat in AMBIENT:
+                    for m in re.finditer(pat, text):
+                        ambient.append((rel, m.group(0)))
+                nd = len(re.findall(r"is_(?:x86|aarch64)_feature_detected\s*!", text)) + len(re.findall(r"\bcpuid\b|__cpuid", text))
+                if nd and rel != os.path.join("src", "engine", "engine_default.rs"):
+                    detect_outside += nd
+                    notes.append(f"{rel}: {nd} CPU feature detections outside engine_default.rs")
             n = len(re.findall(r"\bthread_local\s*!", text))
             if n:
                 tls += n
@@ -94,6 +126,11 @@ def main():
     lines.append(f"def threadLocals : Nat := {tls}")
     lines.append(f"def unsafeCells : Nat := {uc}")
     lines.append(f"def staticMuts : Nat := {sm}")
+    lines.append("/-- uses of APIs through which the process environment could reach a result (threads / CPU count, environment")
+    lines.append("    variables, clocks, files, sockets, processes, random numbers, hash-order, addresses) outside test modules: -/")
+    lines.append("def ambientUses : List String := [" + ", ".join('"' + f"{rel}: {' '.join(tok.split())}".replace('"', "'") + '"' for rel, tok in ambient) + "]")
+    lines.append("/-- run-time CPU feature detections outside `src/engine/engine_default.rs` -/")
+    lines.append(f"def featureDetectionsOutsideDefaultEngine : Nat := {detect_outside}")
     lines.append("/-- every `#[target_feature(enable = F)]` function of the SIMD engines: (ISA of the engine whose file it is in,")
     lines.append("    ISA `F` it is compiled for, does its name end in `_<engine>`); avx2 = 1, ssse3 = 2, neon = 4, other = 0:")
     for eng, fn, feat in tf:
@@ -110,7 +147,7 @@ def main():
         pass
     if old != text:
         open(out, "w").write(text)
-    print(f"{len(items)} statics, {tls} thread_local!, {uc} UnsafeCell, {sm} static mut, {len(tf)} target_feature fns -> {out}" + (" (unchanged)" if old == text else " (CHANGED)"))
+    print(f"{len(items)} statics, {len(ambient)} ambient uses, {tls} thread_local!, {uc} UnsafeCell, {sm} static mut, {len(tf)} target_feature fns -> {out}" + (" (unchanged)" if old == text else " (CHANGED)"))
     return 0
 
 
